@@ -27,6 +27,7 @@ ARCH = {
     'gex-first': {'spec': {'banner': 'SSH-2.0-dropbear_2020.81', 'kex': ['diffie-hellman-group-exchange-sha256', 'curve25519-sha256'], 'key': ['ssh-rsa', 'ssh-ed25519'], 'enc': ['aes128-ctr'], 'mac': ['hmac-sha2-256'], 'hostkeys': dict(RSA, **HK_ED), 'moduli': [3072], 'gex_style': 'roundup'}, 'argv': []},
     'ssh1':     {'spec': {'proto': 1, 'cmask': 0x4c, 'amask': 0x2c}, 'argv': ['-1']},
     'ssh1-fallback': {'spec': {'proto': 1, 'cmask': 0x4c, 'amask': 0x2c}, 'argv': [], 'hs_conn': 1},     # SSH-2 attempt answered with 'Protocol major versions differ.', then SSH-1
+    'always-differ': {'spec': {'proto': 1, 'always_differ': True}, 'argv': [], 'hs_conn': 1, 'no_report': True},     # answers every attempt, also the SSH-1 retry, with the version-mismatch text
     'client':   {'spec': {'banner': 'SSH-2.0-OpenSSH_9.0', 'kex': ['curve25519-sha256', 'kex-strict-c-v00@openssh.com'], 'key': ['ssh-ed25519', 'rsa-sha2-512'], 'enc': ['aes128-ctr'], 'mac': ['hmac-sha2-256']}, 'argv': ['-c'], 'client': True},
     'policy':   {'spec': {'kex': ['curve25519-sha256'], 'key': ['rsa-sha2-512', 'ssh-ed25519'], 'enc': ['aes128-ctr'], 'mac': ['hmac-sha2-256'], 'hostkeys': dict(RSA, **HK_ED)}, 'argv': ['-P', 'Hardened OpenSSH Server v9.9 (version 1)']},
     'json':     {'spec': {'kex': ['curve25519-sha256', 'diffie-hellman-group-exchange-sha256'], 'key': ['ssh-ed25519', 'rsa-sha2-256'], 'enc': ['aes128-ctr'], 'mac': ['hmac-sha2-256'], 'hostkeys': dict(RSA, **HK_ED), 'moduli': [2048], 'gex_style': 'strict'}, 'argv': ['-j']},
@@ -136,6 +137,11 @@ def first_handshake_status(conn, proto):
         except ValueError:
             return 'broken'
     _LAST['kexinit'] = parsed
+    # names must be RFC 4251 names (no blanks / control characters): a mutated name that contains a newline is
+    # decodable but no longer something the text report can be expected to show on one line
+    for f in ('kex', 'key', 'enc_s2c', 'mac_s2c'):
+        if any(b <= 0x20 or b == 0x7f for n in parsed[f] for b in n):
+            return 'decodable'
     return 'wellformed' if (strict and banner_ok) else 'decodable'
 
 
@@ -180,7 +186,12 @@ def eval_ab(case):
     name = case['arch']
     a = ARCH[name]
     spec = dict(a['spec'], faults=case['faults'])
-    ra, rb, peer_a, peer_b, eof = abcheck.run_both(spec, ['-n'] + list(a['argv']), timeout_opt=1)
+    import subprocess
+    try:
+        ra, rb, peer_a, peer_b, eof = abcheck.run_both(spec, ['-n'] + list(a['argv']), timeout_opt=1)
+    except subprocess.TimeoutExpired:
+        # wall-clock budget hit: inconclusive here (hangs are decided by engine A's virtual clock, deterministically)
+        return mkres(case, nt=False, classes=['engine-B', 'wall-clock-budget-hit-inconclusive'], fails=[])
     fails = []
     if ra.exc or rb.code == 255:
         # a crash prints a traceback whose frames differ between the engines; only the status class is comparable
@@ -190,8 +201,9 @@ def eval_ab(case):
         abcheck.assert_agree(ra, rb, 'C09 %s %r' % (name, case['faults']))
     if rb.code not in (0, 1, 2, 3):
         fails.append(['undocumented-exit-status-%d-real-process' % rb.code, 'arch %s faults %r' % (name, case['faults'])])
-    if len(eof) < peer_b.nconn:
-        fails.append(['connection-not-closed-at-process-exit', 'arch %s faults %r: server saw EOF on %d of %d connections' % (name, case['faults'], len(eof), peer_b.nconn)])
+    expect_eof = len([c for c in peer_b.conns if not c.reset])     # a connection the server reset itself has no EOF to observe
+    if len(eof) < expect_eof:
+        fails.append(['connection-not-closed-at-process-exit', 'arch %s faults %r: server saw EOF on %d of %d connections' % (name, case['faults'], len(eof), expect_eof)])
     return mkres(case, nt=True, classes=['engine-B', 'arch:' + name], fails=fails)
 
 
@@ -243,7 +255,11 @@ def eval_case(case):
     rep = has_report(r.out, argv)
     if rep != (r.code in (0, 2, 3)):
         fails.append(['report-presence-vs-status', 'arch %s faults %r: exit %d, report %s' % (name, faults, r.code, 'present' if rep else 'absent')])
-    if case.get('clean'):
+    if case.get('clean') and a.get('no_report'):
+        hs = 'broken'          # this peer never completes a handshake: status 1, no report, bounded connections
+        if len(net.connects) > 2:
+            fails.append(['version-mismatch-peer-redialled', 'arch %s: %d connections' % (name, len(net.connects))])
+    elif case.get('clean'):
         # the fault-free transcript itself: must end in a complete report
         hs = 'wellformed'
         if a.get('hs_conn') and len(peer.conns) > a['hs_conn']:
@@ -325,6 +341,15 @@ def enumerate_faults(name, quick, rng):
             add(idx, what, ['trunc', k, 'close'])
             if not quick or k % 3 == 0:
                 add(idx, what, ['trunc', k, 'stall'])
+        # every byte inverted / bit-flipped (sampled above 400 bytes in quick)
+        xoffs = list(range(n))
+        if quick and n > 400:
+            xoffs = sorted(set(list(range(0, 120)) + rng.sample(range(120, n), 200)))
+        for k in xoffs:
+            add(idx, what, ['xor', k, 0xff])
+            if not quick or k % 4 == 0:
+                add(idx, what, ['xor', k, 0x01])
+                add(idx, what, ['xor', k, 0x80])
         add(idx, what, 'close')
         add(idx, what, 'stall')
         add(idx, what, 'reset')
@@ -459,5 +484,5 @@ def run(ctx):
                     seeds.append(bytes([{'kexdh_reply': 0, 'gex_reply': 0, 'gex_group': 1, 'kexinit': 2}[what]]) + payload[1:])
         fuzzrun.run_into(ctx, 'c09_parsers', runs=250000, shards=16, seeds_corpus=seeds[:12], max_len=2048)
     ctx.note(enumerated_fault_cases=len(allc), archetypes=sorted(ARCH), timeout_s=TIMEOUT)
-    return ctx.finish('fault_enumeration', 'for each of 8 transcript archetypes (Ed25519-only, RSA+certificates+GEX, GEX-first, SSH-1 with -1, SSH-1 through the version-mismatch fallback, client audit, policy audit, JSON) a clean run records every message of every connection; injected: truncation at every byte offset (sampled above 80 bytes in quick) then close / stall, close / stall / reset / duplicate, payload truncated at every byte and re-framed, every structural length field := 0, len-1, len+1, 2^31-1, 2^32-1, payload length, every message type from {0,1,2,4,20,21,30,31,32,33,34,255}, 1/3/40 MSG_DEBUG in front, bad packet-length / padding fields, garbage and very long pre-banner lines, refused / timed-out / closed / silent connections at every connection index, 1/2/7-byte segmentation; Hypothesis byte mutations and double faults; non-trivial = the fault was actually reached',
+    return ctx.finish('fault_enumeration', 'for each of 9 transcript archetypes (Ed25519-only, RSA+certificates+GEX, GEX-first, SSH-1 with -1, SSH-1 through the version-mismatch fallback, a peer answering every attempt with the version-mismatch text, client audit, policy audit, JSON) a clean run records every message of every connection; injected: truncation at every byte offset (sampled above 80 bytes in quick) then close / stall, every byte inverted / bit-flipped, close / stall / reset / duplicate, payload truncated at every byte and re-framed, every structural length field := 0, len-1, len+1, 2^31-1, 2^32-1, payload length, every message type from {0,1,2,4,20,21,30,31,32,33,34,255}, 1/3/40 MSG_DEBUG in front, bad packet-length / padding fields, garbage and very long pre-banner lines, refused / timed-out / closed / silent connections at every connection index, 1/2/7-byte segmentation; Hypothesis byte mutations and double faults; non-trivial = the fault was actually reached',
                       assumptions=['virtual time: a stalled read costs exactly the configured timeout', 'well-formedness of the first handshake is judged by the independent strict parser in vlib/wire.py; inputs it rejects but that still decode as a KEXINIT may go either way'])
